@@ -10,6 +10,8 @@ Emits data only (DESIGN §2.4), fail-closed (`ExtractError` on any shape it does
 * `rowsOneCommitEach`  — `_create_or_update_state` upserts one row inside its own `with DatabaseSession()` and commits there,
                          and `update_states_in_database` calls it once per element of `node_and_neighbors`;
 * `neighbourOrder`     — the order in which `node_and_neighbors` yields (predecessors, the node, successors);
+* `createAllUnconditional`, `dbTables` — `create_database` runs `metadata.create_all` as a top-level statement (every start-up
+                         creates whatever table is missing); the table names declared on `BaseTable`;
 * `memoLoadSuppressed` — the whole body of `build.pytask_post_parse` (read + `json.loads` + filling the memo) sits in one
                          `with suppress(Exception)`;
 * `memoSingleWrite`    — `build.pytask_unconfigure` writes the memo file with exactly one `write_text(json.dumps(…))`.
@@ -227,6 +229,38 @@ def _memo_facts():
     return suppressed, single
 
 
+def _startup_facts():
+    """`create_database`: is `BaseTable.metadata.create_all(...)` a top-level statement of the function (run on every start-up,
+    whatever the database file looks like)?  True / False (nested under a condition, try, with, loop) / ExtractError (absent).
+    Plus the tables declared on `BaseTable` anywhere in src/_pytask."""
+    import extract
+    mod = extract._parse("database_utils.py")
+    fn = extract._func(mod, "create_database")
+    calls = _calls(fn, "create_all")
+    if len(calls) != 1:
+        raise _err(f"create_database: expected exactly one create_all call, found {len(calls)}")
+    if "metadata.create_all" not in ast.unparse(calls[0]):
+        raise _err("create_database: create_all is not called on the declarative metadata")
+    top = any(isinstance(st, ast.Expr) and st.value is calls[0] for st in _body(fn))
+    if any(kw.arg == "checkfirst" for kw in calls[0].keywords):
+        raise _err("create_database: create_all(checkfirst=...) is not the default 'create what is missing'")
+    tables = []
+    # order of registration on the metadata: database_utils.py (imported first, it defines BaseTable), then the other modules
+    for p in sorted(extract.SRC.glob("*.py"), key=lambda q: (q.name != "database_utils.py", q.name)):
+        m = extract._parse(p.name)
+        for cls in [n for n in ast.walk(m) if isinstance(n, ast.ClassDef)]:
+            if not any(ast.unparse(b) == "BaseTable" for b in cls.bases):
+                continue
+            names = [st.value.value for st in cls.body if isinstance(st, ast.Assign) and len(st.targets) == 1
+                     and ast.unparse(st.targets[0]) == "__tablename__" and isinstance(st.value, ast.Constant) and isinstance(st.value.value, str)]
+            if len(names) != 1:
+                raise _err(f"{p.name}:{cls.name}: table class without a literal __tablename__")
+            tables.append(names[0])
+    if not tables:
+        raise _err("no table declared on BaseTable")
+    return top, tables
+
+
 def crash_facts() -> list[str]:
     import extract
     try:
@@ -235,6 +269,7 @@ def crash_facts() -> list[str]:
         single = _rows_single_transaction()
         order = _neighbour_order()
         suppressed, memo_single = _memo_facts()
+        create_uncond, tables = _startup_facts()
     except extract.ExtractError:
         raise
     except Exception as e:  # noqa: BLE001
@@ -252,5 +287,8 @@ def crash_facts() -> list[str]:
     L.append("/-- the hash memo file is read inside `suppress(Exception)` / written by a single `write_text`. -/")
     L.append(f"def memoLoadSuppressed : Bool := {extract.lean_bool(suppressed)}")
     L.append(f"def memoSingleWrite : Bool := {extract.lean_bool(memo_single)}")
+    L.append("/-- `create_database` calls `metadata.create_all` unconditionally (on every start-up); the tables declared on `BaseTable`. -/")
+    L.append(f"def createAllUnconditional : Bool := {extract.lean_bool(create_uncond)}")
+    L.append(f"def dbTables : List String := {strs(tables)}")
     L.append("")
     return L
